@@ -104,6 +104,13 @@ def extra_cases(seed):
                        ('two-half-arcs', [h1, h2]), ('two-half-arcs-rev', [h1, h2r]), ('two-half-arcs-rev1', [h1r, h2]),
                        ('closed-arc-tail', [loop, tail]), ('arc-two-wires', [h1, tail, geom.wire([-R, 0., 0.], [-R - 0.04 * lam, 0.03 * lam, -0.02 * lam], 2, r)])):
         yield dict(extra=name, env='free', f=f, objs=objs)
+    # exactly collinear junctions (telescoping element, different radii, equal segment vectors), every orientation, two orders
+    stops = [np.array([0., y, 0.5]) for y in (-1., 0., 1., 2.)]
+    for order in ((0, 1, 2), (2, 0, 1)):
+        for flips in itertools.product((0, 1), repeat=3):
+            objs = [geom.wire(stops[i + 1], stops[i], 4, (0.002, 0.0075, 0.004)[i]) if flips[i] else geom.wire(stops[i], stops[i + 1], 4, (0.002, 0.0075, 0.004)[i])
+                    for i in order]
+            yield dict(extra='telescope-%s-%s' % (''.join(map(str, order)), ''.join(map(str, flips))), env='free', f=30.0, objs=objs)
 
 
 def evaluate_extra(c):
